@@ -12,8 +12,15 @@ the file / string / object / stream changes in between -- under ONE persistent m
 on real files and objects (every step compared with the class-level codec on the source as it is now;
 returned objects are modified by the caller, files are rewritten in place / replaced / with the old
 time stamp and length).
+What the caller owns: after EVERY call -- successful or refused -- the streams the caller handed over are
+observed (StringIO and a text file opened by the caller: still open, positioned after the text, content
+before the call untouched), the object dumped is compared with what it was, the file a reader was given is
+re-read, and file handles the library opened and did not close are counted (ResourceWarning at
+deallocation).  Model: `w_sstate` / `ob_sstate` / `ob_left_open` of Model/DispatchSeq.v (theorems
+C09_seq_streams_stay_open, C09_seq_refused_leaves_world).  The harness itself never trusts a stream to be
+usable after it was handed to the implementation.
 """
-import io, os, re, sys, itertools, json, tempfile, hashlib, shutil
+import io, os, re, sys, itertools, json, tempfile, hashlib, shutil, warnings
 import vlib
 from vlib import cq_list, cq_bool
 
@@ -85,6 +92,86 @@ def parse_toks(s):
         out.append(("D", int(m.group(1))) if m.group(1) is not None
                    else ("W", m.group(2), m.group(3), int(m.group(4)), int(m.group(5))))
     return out if pos == len(s) else [("B",)]
+
+
+def _read(path):
+    with open(path) as f:
+        return f.read()
+
+
+def _write(path, text):
+    with open(path, "w") as f:
+        f.write(text)
+
+
+def _detach(e):
+    """Drop the frames an exception keeps alive (so that what the failed call left behind is released now)."""
+    seen = set()
+    while e is not None and id(e) not in seen:
+        seen.add(id(e))
+        e.__traceback__ = None
+        e = e.__cause__ or e.__context__
+    return None
+
+
+class CallerStream:
+    """A stream the CALLER owns and hands to the implementation: a plain io.StringIO (kind 0) or a text file the
+    caller opened for writing (kind 1).  `observe` never raises, whatever was done to the stream."""
+    KINDS = ("stringio", "file")
+
+    def __init__(self, kind, path=None, pre=""):
+        self.kind, self.path = kind, path
+        self.st = io.StringIO() if kind == 0 else open(path, "w")
+        if pre:
+            self.st.write(pre)
+
+    def observe(self):
+        """(text now held, or None when it is lost; SOpenAtEnd | SOpenElsewhere | SClosed)."""
+        st = self.st
+        try:
+            if self.kind == 0:
+                if st.closed:
+                    return None, "SClosed"
+                val = st.getvalue()
+                return val, ("SOpenAtEnd" if st.tell() == len(val) else "SOpenElsewhere")
+            closed = st.closed
+            if not closed:
+                st.flush()
+            val = _read(self.path)
+            if closed:
+                return val, "SClosed"
+            return val, ("SOpenAtEnd" if st.tell() == len(val.encode()) else "SOpenElsewhere")
+        except Exception:  # noqa -- unusable for the caller
+            return None, "SClosed"
+
+    def dispose(self):
+        try:
+            self.st.close()
+        except Exception:  # noqa
+            pass
+
+
+class LeakWatch:
+    """Counts the file handles on files under `root` that were opened inside the block and dropped without being
+    closed (CPython reports them with a ResourceWarning when the object is released).  The caller of the entry
+    point must have let go of the exception of a refused call before the block ends."""
+
+    def __init__(self, root):
+        self.root, self.n, self.names = os.path.abspath(root), 0, []
+
+    def __enter__(self):
+        self.cm = warnings.catch_warnings(record=True)
+        self.rec = self.cm.__enter__()
+        warnings.simplefilter("always", ResourceWarning)
+        return self
+
+    def __exit__(self, *a):
+        self.cm.__exit__(*a)
+        for w in self.rec:
+            if issubclass(w.category, ResourceWarning) and self.root in str(w.message):
+                self.n += 1
+                self.names.append(str(w.message)[:160])
+        return False
 
 
 def name_kind(kw):
@@ -217,13 +304,22 @@ class MockEnv:
 
     def call(self, c, path=None, data=None, obj=None, stream=None, mode="w", fresh=True):
         """Run the entry point of cell c once. path: the file read / written (str); data: the string given;
-        obj: the mock object dumped; stream: the stream given (tgt TStream).  fresh: the target was empty
+        obj: the mock object dumped; stream: the CallerStream given (tgt TStream).  fresh: the target was empty
         before (then its whole content must be the record written, otherwise its tail).
-        Returns (Coq `action` term, text seen by the class-level codec or None)."""
+        Returns (Coq `action` term, text seen by the class-level codec or None).
+        AOdd codes: 1 dump returned something, 2 class writer called more than once, 3 extra arguments, 4 dumps odd,
+        11 the object dumped was modified by the call (7-10: observe_cell)."""
+        act, seen = self._call(c, path, data, obj, stream, mode, fresh)
+        if obj is not None and (obj.oid, obj.ver, sorted(vars(obj))) != self._obj_before:
+            return "(AOdd 11)", None
+        return act, seen
+
+    def _call(self, c, path, data, obj, stream, mode, fresh):
         ml = self.ml
         verb, fmt, fsrc, otype, named, tgt, parser, dotted = c
         ext = FMTS[fmt]
         self.path, self.data = path, data
+        self._obj_before = None if obj is None else (obj.oid, obj.ver, sorted(vars(obj)))
         ot = {"OMol": "molecule", "OEns": "ensemble", "OStructCls": self.MStruct, "OEnsCls": self.MEnsCls}[otype]
         kw = {"parser": PARSERS[parser]}
         if named:
@@ -239,7 +335,7 @@ class MockEnv:
                 res = fn(data, fmt_arg, otype=ot, **kw)
             elif verb == "VDump":
                 n0 = len(obj.calls)
-                target = stream if tgt == "TStream" else p_arg
+                target = stream.st if tgt == "TStream" else p_arg
                 res = ml.dump(obj, target, fmt_arg, writer=PARSERS[parser], mode=mode)
                 calls = obj.calls[n0:]
                 if res is not None or len(calls) != 1:
@@ -248,10 +344,10 @@ class MockEnv:
                 if extra:
                     return "(AOdd 3)", None
                 if tgt == "TStream":
-                    val = stream.getvalue()
-                    ok = st is stream and not stream.closed and (val == tok if fresh else val.endswith(tok))
+                    val, state = stream.observe()
+                    ok = st is stream.st and state != "SClosed" and val is not None and (val == tok if fresh else val.endswith(tok))
                     return f"(AWrote ({meth[0]}, {meth[1]}) SGivenStream {cq_bool(ok)})", None
-                val = open(path).read()
+                val = _read(path)
                 ok = st.closed and (val == tok if fresh else val.endswith(tok)) and os.path.abspath(st.name) == os.path.abspath(path)
                 return f"(AWrote ({meth[0]}, {meth[1]}) SOpenedPath {cq_bool(ok)})", None
             else:
@@ -293,15 +389,24 @@ class MockEnv:
         return act, seen[0]
 
 
+ODD_CODES = {7: "caller-stream-closed", 8: "caller-stream-content-or-position", 9: "stream-kinds-treated-differently",
+             10: "handle-left-open", 11: "object-dumped-was-modified"}
+PRE_TEXT = "<D7>"        # what a caller's stream already holds before the one-shot call
+
+
 def observe_cell(ml, c, work):
-    """Run one cell ONCE against fresh recording mocks and fresh files; return the Coq `action` term."""
+    """Run one cell ONCE against fresh recording mocks and fresh files; return the Coq `action` term.
+    What the caller owns is part of the observation: AOdd 7 = the stream given was closed by the call, 8 = what it
+    held before was changed / a refused call wrote into it / it is not positioned after the text, 9 = a StringIO and
+    a caller-opened file are treated differently, 10 = a file handle opened by the library was left open."""
     verb, fmt, fsrc, otype, named, tgt, parser, dotted = c
     ext = FMTS[fmt]
     stem = "in.put.v2" if dotted else "input"
     path = os.path.join(work, stem + "." + (ext if fsrc == "FsSuffix" else "dat"))
-    open(path, "w").write("mock file body\n")
+    _write(path, "mock file body\n")
     data = "mock string body " + ext
-    with MockEnv(ml) as env:
+
+    def once(env, kind):
         if verb in ("VLoad", "VLoadAll"):
             return env.call(c, path=path)[0]
         if verb in ("VLoads", "VLoadsAll"):
@@ -312,9 +417,30 @@ def observe_cell(ml, c, work):
             if os.path.exists(opath):
                 os.remove(opath)
             if tgt == "TStream":
-                return env.call(c, obj=obj, stream=io.StringIO())[0]
+                cs = CallerStream(kind, os.path.join(work, "caller_stream.log"), pre=PRE_TEXT)
+                try:
+                    a = env.call(c, obj=obj, stream=cs, fresh=False)[0]
+                    val, state = cs.observe()
+                    if state == "SClosed":
+                        return "(AOdd 7)"
+                    if state != "SOpenAtEnd" or val is None or not val.startswith(PRE_TEXT) \
+                            or (a.startswith("(ARaise") and val != PRE_TEXT):
+                        return "(AOdd 8)"
+                    return a
+                finally:
+                    cs.dispose()
             return env.call(c, path=opath, obj=obj)[0]
         return env.call(c, obj=obj)[0]
+
+    acts = []
+    for kind in ((0, 1) if tgt == "TStream" else (0,)):
+        with MockEnv(ml) as env:
+            with LeakWatch(work) as lw:
+                a = once(env, kind)
+            acts.append("(AOdd 10)" if lw.n else a)
+    if any(a != acts[0] for a in acts):
+        return "(AOdd 9)"
+    return acts[0]
 
 
 def gen_table(ctx):
@@ -471,55 +597,65 @@ def py_step(files, streams, op):
 
 def observe_prog(ml, prog, work):
     """Run one history against ONE mock environment in a fresh directory.
-    Returns (init files, [ (action, seen toks|None, [file toks], [stream toks]) per step ])."""
+    Returns (init files, [ (action, seen toks|None, [file toks], [stream toks], [stream states], handles left open)
+    per step ]).  Stream #0 is a StringIO, stream #1 a text file opened by the caller."""
     os.makedirs(work, exist_ok=True)
     init = prog_files(prog)
     pth = {k: os.path.join(work, fkey_name(k)) for k, _ in init}
     for k, t in init:
-        open(pth[k], "w").write("".join(tok_text(x) for x in t))
-    streams = [io.StringIO() for _ in range(N_STREAMS)]
+        _write(pth[k], "".join(tok_text(x) for x in t))
+    streams = [CallerStream(i % 2, os.path.join(work, f"caller_stream{i}.log")) for i in range(N_STREAMS)]
     datas = {}
     mfiles, mstreams = {k: list(t) for k, t in init}, [[] for _ in range(N_STREAMS)]     # mirror, for the repair below
     out = []
-    with MockEnv(ml) as env:
-        for op in prog:
-            if op[0] == "rewrite":
-                st0 = os.stat(pth[op[1]])
-                open(pth[op[1]], "w").write(tok_text(("D", op[2])))
-                if op[2] % 2:       # odd documents arrive with the time stamp (and length) of what they replace
-                    os.utime(pth[op[1]], ns=(st0.st_atime_ns, st0.st_mtime_ns))
-                act, seen = "ANothing", None
-            else:
-                _, c, slot, o, v, md = op
-                verb = c[0]
-                if verb in ("VLoad", "VLoadAll"):
-                    act, seen = env.call(c, path=pth[fkey_of(c, slot)])
-                elif verb in ("VLoads", "VLoadsAll"):
-                    # one string object per document: calling again with the same document hands over the same string
-                    data = datas.setdefault(slot, tok_text(("D", slot)))
-                    act, seen = env.call(c, data=data)
+    try:
+        with MockEnv(ml) as env:
+            for op in prog:
+                leaks = 0
+                if op[0] == "rewrite":
+                    st0 = os.stat(pth[op[1]])
+                    _write(pth[op[1]], tok_text(("D", op[2])))
+                    if op[2] % 2:       # odd documents arrive with the time stamp (and length) of what they replace
+                        os.utime(pth[op[1]], ns=(st0.st_atime_ns, st0.st_mtime_ns))
+                    act, seen = "ANothing", None
                 else:
-                    obj = env.obj(c[3], o)
-                    obj.ver = v                     # the object was modified since the previous call
-                    if verb == "VDump" and c[5] == "TStream":
-                        act, seen = env.call(c, obj=obj, stream=streams[slot], fresh=False)
-                    elif verb == "VDump":
-                        act, seen = env.call(c, path=pth[fkey_of(c, slot)], obj=obj, mode=md, fresh=False)
-                    else:
-                        act, seen = env.call(c, obj=obj)
-            py_step(mfiles, mstreams, op)
-            if op[0] == "call" and op[1][0] == "VDump" and op[1][5] != "TStream" and act.startswith("(ARaise"):
-                # a refused dump: whether the (already opened) target was created / truncated is not part of the
-                # property -- put the file back so that it is not observed
-                k = fkey_of(op[1], op[2])
-                open(pth[k], "w").write("".join(tok_text(x) for x in mfiles[k]))
-            fobs = []
-            for k, _ in init:
-                try:
-                    fobs.append(parse_toks(open(pth[k]).read()))
-                except OSError:
-                    fobs.append([("B",)])
-            out.append((act, None if seen is None else parse_toks(seen), fobs, [parse_toks(st.getvalue()) for st in streams]))
+                    _, c, slot, o, v, md = op
+                    verb = c[0]
+                    with LeakWatch(work) as lw:
+                        if verb in ("VLoad", "VLoadAll"):
+                            act, seen = env.call(c, path=pth[fkey_of(c, slot)])
+                        elif verb in ("VLoads", "VLoadsAll"):
+                            # one string object per document: calling again with the same document hands over the same string
+                            data = datas.setdefault(slot, tok_text(("D", slot)))
+                            act, seen = env.call(c, data=data)
+                        else:
+                            obj = env.obj(c[3], o)
+                            obj.ver = v                     # the object was modified since the previous call
+                            if verb == "VDump" and c[5] == "TStream":
+                                act, seen = env.call(c, obj=obj, stream=streams[slot], fresh=False)
+                            elif verb == "VDump":
+                                act, seen = env.call(c, path=pth[fkey_of(c, slot)], obj=obj, mode=md, fresh=False)
+                            else:
+                                act, seen = env.call(c, obj=obj)
+                    leaks = lw.n
+                py_step(mfiles, mstreams, op)
+                if op[0] == "call" and op[1][0] == "VDump" and op[1][5] != "TStream" and act.startswith("(ARaise"):
+                    # a refused dump: whether the (already opened) target was created / truncated is not part of the
+                    # property -- put the file back so that it is not observed
+                    k = fkey_of(op[1], op[2])
+                    _write(pth[k], "".join(tok_text(x) for x in mfiles[k]))
+                fobs = []
+                for k, _ in init:
+                    try:
+                        fobs.append(parse_toks(_read(pth[k])))
+                    except OSError:
+                        fobs.append([("B",)])
+                sob = [cs.observe() for cs in streams]      # never raises: a closed / garbled stream is an observation
+                out.append((act, None if seen is None else parse_toks(seen), fobs, [parse_toks(t) for t, _ in sob],
+                            [q for _, q in sob], leaks))
+    finally:
+        for cs in streams:
+            cs.dispose()
     return init, out
 
 
@@ -529,15 +665,18 @@ def model_prog(prog):
     out = []
     for op in prog:
         a, seen = py_step(files, streams, op)
-        out.append((a, seen, [list(files[k]) for k, _ in init], [list(x) for x in streams]))
+        out.append((a, seen, [list(files[k]) for k, _ in init], [list(x) for x in streams],
+                    ["SOpenAtEnd"] * N_STREAMS, 0))
     return init, out
 
 
 def seqcase_term(init, prog, obs):
     w = ("(mk_world " + cq_list(f"({fkey_term(k)}, {text_term(t)})" for k, t in init) + " "
-         + cq_list(f"({i}%nat, [])" for i in range(N_STREAMS)) + ")")
+         + cq_list(f"({i}%nat, [])" for i in range(N_STREAMS)) + " "
+         + cq_list(f"({i}%nat, SOpenAtEnd)" for i in range(N_STREAMS)) + ")")
     ob = cq_list(f"(mk_obs ({a}, {'None' if sn is None else '(Some ' + text_term(sn) + ')'}) "
-                 f"{cq_list(text_term(t) for t in fo)} {cq_list(text_term(t) for t in so)})" for a, sn, fo, so in obs)
+                 f"{cq_list(text_term(t) for t in fo)} {cq_list(text_term(t) for t in so)} {cq_list(ss)} {lk}%nat)"
+                 for a, sn, fo, so, ss, lk in obs)
     return f"(mk_seqcase {w} {cq_list(op_term(o) for o in prog)} {ob})"
 
 
@@ -560,10 +699,21 @@ def judge_prog(prog, obs):
             what = "stale-or-wrong-source"
             detail = (f"the class-level codec was handed / rendered {None if g[1] is None else ''.join(map(tok_text, g[1]))!r} "
                       f"but the source holds {None if w[1] is None else ''.join(map(tok_text, w[1]))!r} now")
+        elif g[4] != w[4]:
+            # an object the CALLER owns: the stream handed over (or any other stream) was closed / left elsewhere
+            j = [a != b for a, b in zip(g[4], w[4])].index(True)
+            what = (f"caller-stream-{'closed' if g[4][j] == 'SClosed' else 'not-at-end'}:{CallerStream.KINDS[j % 2]}:"
+                    f"{'refused' if w[0].startswith('(ARaise') else 'accepted'}-call")
+            detail = (f"stream #{j} ({CallerStream.KINDS[j % 2]}) of the caller is {g[4][j]} after the call "
+                      f"(the call {'was refused with ' + w[0] if w[0].startswith('(ARaise') else 'did ' + w[0]}); it must be left "
+                      f"open, positioned after the text, holding {''.join(map(tok_text, w[3][j]))!r}")
         elif g[2] != w[2] or g[3] != w[3]:
             what = "world"
             detail = (f"files/streams afterwards {[''.join(map(tok_text, t)) for t in g[2] + g[3]]}, "
                       f"specified {[''.join(map(tok_text, t)) for t in w[2] + w[3]]}")
+        if not what and g[5] != w[5]:
+            what = "handle-left-open:" + ("refused" if w[0].startswith("(ARaise") else "accepted") + "-call"
+            detail = f"{g[5]} file handle(s) opened by the library during the call were dropped without being closed"
         if what:
             if op[0] == "call":
                 head = f"C09:seq:{c[0]}:{c[1]}:{rel}:{what}"
@@ -612,6 +762,25 @@ def gen_progs(ctx, rep):
         else:
             p = [("call", c, 0, 0, 0, "a"), ("call", c, 0, 0, 1, "a"), ("call", c, 0, 1, 0, "a"), ("call", c, 0, 0, 1, "a")]
         progs.append(("recall", p))
+    # what the caller owns: EVERY configuration of dump-into-a-stream (accepted or refused: unknown format, openbabel-only
+    # format, cdxml, no format, unknown writer), on a StringIO and on a file opened by the caller, BETWEEN two dumps
+    # that succeed into the same stream, with a reader and a path dump in between: the stream must stay open, positioned
+    # after its text, and hold exactly the accepted records
+    ok_stream = [c for c in cells if c[0] == "VDump" and c[5] == "TStream" and py_spec(c).startswith("(AWrote")
+                 and c[6] == "PMolli"]
+    rd_any = [c for c in cells if c[0] in ("VLoad", "VLoadAll") and c[6] == "PMolli" and c[1] in ("FXyz", "FMol2", "FCdxml")]
+    for c in cells:
+        if c[0] != "VDump" or c[5] != "TStream":
+            continue
+        for slot in range(N_STREAMS):
+            g0, g1 = rng.choice(ok_stream), rng.choice(ok_stream)
+            rd = rng.choice(rd_any + [x for x in cells if x[0] in ("VLoad", "VLoadAll", "VLoads", "VLoadsAll", "VDumps")])
+            rslot = rng.randint(60, 62) if rd[0] in ("VLoads", "VLoadsAll") else 0
+            cp = rng.choice([x for x in cells if x[0] == "VDump" and x[5] in ("TPath", "TPathObj")])
+            p = [("call", g0, slot, 0, 0, "a"), ("call", c, slot, 0, 1, "a"), ("call", g1, slot, 1, 0, "a"),
+                 ("call", rd, rslot, 0, 0, "a"), ("call", c, 1 - slot, 1, 0, "a"), ("call", cp, 0, 0, 1, rng.choice("aw")),
+                 ("call", c, slot, 0, 2, "a"), ("call", g0, slot, 0, 2, "a"), ("call", g1, 1 - slot, 1, 1, "a")]
+            progs.append(("owned", p))
     # random histories over two file slots, two streams, two objects, a few documents
     good = [c for c in cells if c[6] != "PUnknown" and c[1] in ("FXyz", "FMol2", "FCdxml")]
     n_rand = 2500 if ctx.thorough else 400
@@ -652,10 +821,15 @@ def run_seq_mocks(ctx, rep, coq=True):
         rep.case(key="seq:" + hashlib.sha1(term.encode()).hexdigest()[:16])
         rep.count("seq:family:" + fam)
         prev = "start"
-        for op in prog:
+        for op, ob in zip(prog, obs):
             cur = "rewrite" if op[0] == "rewrite" else op[1][0]
             rep.count(f"seq:pair:{prev}>{cur}")
             prev = cur
+            if cur == "VDump" and op[1][5] == "TStream":
+                rep.count(f"seq:caller-stream:{CallerStream.KINDS[op[2] % 2]}:"
+                          + ("refused" if ob[0].startswith("(ARaise") else "accepted"))
+            elif cur != "rewrite" and ob[0].startswith("(ARaise"):
+                rep.count(f"seq:refused:{cur}")
         r = judge_prog(prog, obs)
         if r:
             found = True
@@ -674,6 +848,10 @@ def run_seq_mocks(ctx, rep, coq=True):
         # the kernel rejected a recorded history: the Python mirror names it above; if it named nothing, say so
         vlib.broken_obligation(rep, "corr_c09seq", f"histories rejected by check_seq: {bad if bad is None else bad[:20]}", found)
     return found
+
+
+class CallerStreamSpoiled(Exception):
+    pass
 
 
 def mol_sig(m):
@@ -760,7 +938,14 @@ def real_cases(ctx):
     # unsupported formats must raise ValueError on real objects as well
     for fmt in ("sdf", "zzz", "cdxml"):
         cases.append((("dumps-unsupported", fmt), (lambda fmt=fmt: ml.dumps(mol, fmt)), None, "valueerror"))
-        cases.append((("dump-unsupported", fmt), (lambda fmt=fmt: ml.dump(mol, io.StringIO(), fmt)), None, "valueerror"))
+        def refused_stream(fmt=fmt):
+            s = io.StringIO(); s.write("PRE\n")
+            try:
+                ml.dump(mol, s, fmt)
+            finally:       # the stream is the caller's, also when the dump is refused
+                if s.closed or s.getvalue() != "PRE\n" or s.tell() != 4:
+                    raise CallerStreamSpoiled(f"after a refused dump: closed={s.closed}")
+        cases.append((("dump-unsupported", fmt), refused_stream, None, "valueerror"))
     for fmt in ("sdf", "zzz"):
         cases.append((("loads-unsupported", fmt), (lambda fmt=fmt: ml.loads("x", fmt)), None, "valueerror"))
         cases.append((("load-unsupported", fmt), (lambda fmt=fmt: ml.load(str(F.dendrobine_xyz), fmt)), None, "valueerror"))
@@ -856,6 +1041,31 @@ class RealWorld:
             self.pool["xyz"].append(ml.Molecule.load_mol2(str(p)).dumps_xyz())
         self.otypes = {"molecule": ml.Molecule, "ensemble": ml.ConformerEnsemble, "Structure": ml.Structure}
 
+    def faulty_object(self):
+        """A molecule whose class-level writers fail half way: they write a first line and raise.  Whatever the class
+        method does is what the entry point must do -- the same exception, the same partial text -- and the stream is
+        still the caller's."""
+        ml = self.ml
+
+        class FailingWriter(RuntimeError):
+            pass
+
+        class Faulty(ml.Molecule):
+            def dump_xyz(self, stream, *a, **kw):
+                stream.write("12\n")
+                raise FailingWriter("class-level xyz writer failed")
+
+            def dump_mol2(self, stream, *a, **kw):
+                stream.write("@<TRIPOS>MOLECULE\n")
+                raise FailingWriter("class-level mol2 writer failed")
+
+            def dumps_xyz(self, *a, **kw):
+                raise FailingWriter("class-level xyz writer failed")
+
+            def dumps_mol2(self, *a, **kw):
+                raise FailingWriter("class-level mol2 writer failed")
+        return Faulty(ml.Molecule.load_mol2(str(ml.files.benzene_mol2)))
+
     def fresh_objects(self):
         ml, F = self.ml, self.ml.files
         return [ml.Molecule.load_mol2(str(F.dendrobine_mol2)), ml.ConformerEnsemble.load_mol2(str(F.pentane_confs_mol2)),
@@ -883,9 +1093,23 @@ def run_real_prog(rw, prog, work):
     paths = [os.path.join(work, n) for n, _ in SLOTS]
     cur = {}                      # slot -> (fmt, text) put there by the environment (None after a dump)
     objs = rw.fresh_objects()
-    streams = [io.StringIO(), io.StringIO()]
+    faulty = None
+    # what the caller owns: stream #0 a StringIO, stream #1 a text file the caller opened
+    streams = [CallerStream(0), CallerStream(1, os.path.join(work, "caller_stream.log"))]
     last = {}
     out = []
+    try:
+        _run_real_steps(rw, prog, work, paths, cur, objs, streams, last, out)
+    finally:
+        for cs in streams:
+            cs.dispose()
+    return out
+
+
+def _run_real_steps(rw, prog, work, paths, cur, objs, streams, last, out):
+    ml = rw.ml
+    from pathlib import Path
+    faulty = None
 
     def bad(i, op, fmt, rel, what, text):
         out.append((i, f"C09:seq-real:{op[0] if op[0] != 'load' else op[1]}:{fmt}:{rel}:{what}",
@@ -931,10 +1155,10 @@ def run_real_prog(rw, prog, work):
             st = os.stat(p) if os.path.exists(p) else None
             if how == "replace" and st is not None:
                 tmp = p + ".new"
-                open(tmp, "w").write(text)
+                _write(tmp, text)
                 os.replace(tmp, p)
             else:
-                open(p, "w").write(text)
+                _write(p, text)
             if how == "keep-mtime" and st is not None:
                 os.utime(p, ns=(st.st_atime_ns, st.st_mtime_ns))
             cur[slot] = fmt
@@ -955,12 +1179,20 @@ def run_real_prog(rw, prog, work):
                 want = real_class_load(rw, verb, p, fmt, cls, name, key)
             except Exception as e:  # noqa
                 want = e
-            try:
-                fn = ml.load if verb == "load" else ml.load_all
-                kw = {} if key is None else {"key": key}
-                got = fn(Path(p) if aspath else p, fmt if explicit else None, otype=(cls if otn == "Structure" else otn), name=name, **kw)
-            except Exception as e:  # noqa
-                got = e
+            src_before = _read(p) if os.path.exists(p) else None
+            with LeakWatch(work) as lw:
+                try:
+                    fn = ml.load if verb == "load" else ml.load_all
+                    kw = {} if key is None else {"key": key}
+                    got = fn(Path(p) if aspath else p, fmt if explicit else None, otype=(cls if otn == "Structure" else otn), name=name, **kw)
+                except Exception as e:  # noqa
+                    got = e
+                    _detach(e)
+            if lw.n:
+                bad(i, op, fmt, last.get(("file", slot), "first"), "handle-left-open",
+                    f"the reader left {lw.n} file handle(s) open: {lw.names[:2]}")
+            elif src_before is not None and _read(p) != src_before:
+                bad(i, op, fmt, last.get(("file", slot), "first"), "source-file-changed", "the file read is not what it was before the call")
             compare(i, op, fmt, last.get(("file", slot), "first"), want, got, verb == "load_all", name if key is None else None)
             if spoil_it and not isinstance(got, Exception):
                 spoil(got)
@@ -989,7 +1221,12 @@ def run_real_prog(rw, prog, work):
             last[("obj", op[1] % len(objs))] = "after-mutate"
         elif kind == "dumps":
             _, oi, fmt = op
-            o = objs[oi % len(objs)]
+            if oi == "faulty":
+                faulty = faulty or rw.faulty_object()
+                o, okey = faulty, "faulty"
+            else:
+                o, okey = objs[oi % len(objs)], oi % len(objs)
+            sig0 = mol_sig(o)
             try:
                 want = getattr(o, "dumps_" + fmt)()
             except Exception as e:  # noqa
@@ -998,28 +1235,73 @@ def run_real_prog(rw, prog, work):
                 got = ml.dumps(o, fmt)
             except Exception as e:  # noqa
                 got = e
-            rel = last.get(("obj", oi % len(objs)), "first")
+            rel = last.get(("obj", okey), "first")
             if isinstance(want, Exception) or isinstance(got, Exception):
                 compare(i, op, fmt, rel, want, got, False, None)
             elif got != want:
                 bad(i, op, fmt, rel, "text-differs", "text differs from what the class-level writer renders for the object as it is now")
-            last[("obj", oi % len(objs))] = "after-dumps"
+            if mol_sig(o) != sig0:
+                bad(i, op, fmt, rel, "object-changed", "the object rendered is not what it was before the call")
+            last[("obj", okey)] = "after-dumps"
         elif kind == "dump":
             _, oi, tkind, ti, fmt, explicit, mode, aspath = op
-            o = objs[oi % len(objs)]
+            if oi == "faulty":
+                faulty = faulty or rw.faulty_object()
+                o = faulty
+            else:
+                o = objs[oi % len(objs)]
+            sig0 = mol_sig(o)
+            def class_ref(fmt):
+                # what the class-level writer does with this object on a stream of its own (text, or partial text + exception)
+                buf, e1 = io.StringIO(), None
+                if fmt in ("xyz", "mol2"):
+                    try:
+                        getattr(o, "dump_" + fmt)(buf)
+                    except Exception as e:  # noqa
+                        e1 = e
+                return buf.getvalue(), e1
             if tkind == "stream":
-                st = streams[ti % 2]
-                before = st.getvalue()
+                cs = streams[ti % 2]
+                skind = CallerStream.KINDS[ti % 2]
+                before, st0 = cs.observe()
                 rel = last.get(("stream", ti % 2), "first")
-                try:
-                    r = ml.dump(o, st, fmt)
-                    after = st.getvalue()
-                    if r is not None or st.closed:
-                        bad(i, op, fmt, rel, "stream-closed-or-result", f"returned {r!r}, stream closed={st.closed}")
-                    elif after != before + getattr(o, "dumps_" + fmt)():
-                        bad(i, op, fmt, rel, "text-differs", "the stream does not hold (what it held) + (the class-level rendering of the object as it is now)")
-                except Exception as e:  # noqa
-                    bad(i, op, fmt, rel, "raises", f"{type(e).__name__}: {e}")
+                if st0 != "SOpenAtEnd" or before is None:
+                    continue        # an earlier step of this history already ruined (and reported) this stream
+                supported = explicit and fmt in ("xyz", "mol2")
+                ref, ref_err = class_ref(fmt)
+                outcome = "refused" if not supported else "writer-failed" if ref_err is not None else "accepted"
+                r, err = None, None
+                with LeakWatch(work) as lw:
+                    try:
+                        r = ml.dump(o, cs.st, fmt if explicit else None)
+                    except Exception as e:  # noqa
+                        err = e
+                        _detach(e)
+                after, st1 = cs.observe()      # never raises: a closed / garbled stream is an observation
+                if st1 != "SOpenAtEnd":
+                    bad(i, op, fmt, rel, f"caller-stream-{'closed' if st1 == 'SClosed' else 'not-at-end'}:{skind}:{outcome}-call",
+                        f"the {skind} stream of the caller is {st1} after a dump that was {outcome} ({err!r}); the stream given "
+                        "is the caller's: it must be left open, positioned after the text")
+                elif not supported:
+                    if not isinstance(err, (ValueError, NotImplementedError)):
+                        bad(i, op, fmt, rel, "unsupported-not-refused", f"expected ValueError, got {err!r}")
+                    elif after != before:
+                        bad(i, op, fmt, rel, f"refused-dump-wrote:{skind}", "a refused dump changed what the caller's stream held")
+                elif ref_err is not None:
+                    if type(err) is not type(ref_err):
+                        bad(i, op, fmt, rel, "class-codec-raises", f"class-level writer raised {ref_err!r}, entry point gave {err!r}")
+                    elif after != before + ref:
+                        bad(i, op, fmt, rel, "text-differs", "the stream does not hold (what it held) + (what the failing class-level writer wrote)")
+                elif err is not None:
+                    bad(i, op, fmt, rel, "raises", f"{type(err).__name__}: {err}")
+                elif r is not None:
+                    bad(i, op, fmt, rel, "stream-closed-or-result", f"returned {r!r}")
+                elif after != before + ref:
+                    bad(i, op, fmt, rel, "text-differs", "the stream does not hold (what it held) + (the class-level rendering of the object as it is now)")
+                if lw.n:
+                    bad(i, op, fmt, rel, f"handle-left-open:{outcome}-call", f"{lw.n} file handle(s) left open: {lw.names[:2]}")
+                if mol_sig(o) != sig0:
+                    bad(i, op, fmt, rel, "object-changed", f"the object dumped is not what it was before the ({outcome}) call")
                 last[("stream", ti % 2)] = "after-dump"
             else:
                 slot = ti
@@ -1030,25 +1312,38 @@ def run_real_prog(rw, prog, work):
                 if not explicit:
                     fmt = sfmt
                 rel = last.get(("file", slot), "first")
-                before = open(p).read() if os.path.exists(p) else ""
+                before = _read(p) if os.path.exists(p) else ""
                 kw = {} if mode is None else {"mode": mode}
-                try:
-                    r = ml.dump(o, Path(p) if aspath else p, fmt if explicit else None, **kw)
-                    err = None
-                except Exception as e:  # noqa
-                    err = e
-                if fmt not in ("xyz", "mol2"):
-                    if not isinstance(err, (ValueError, NotImplementedError)):
+                supported = fmt in ("xyz", "mol2")
+                ref, ref_err = class_ref(fmt)
+                outcome = "refused" if not supported else "writer-failed" if ref_err is not None else "accepted"
+                err = None
+                with LeakWatch(work) as lw:
+                    try:
+                        r = ml.dump(o, Path(p) if aspath else p, fmt if explicit else None, **kw)
+                    except Exception as e:  # noqa
+                        err = e
+                        _detach(e)
+                # a path target belongs to the library for the duration of the call: closed afterwards, however it ended
+                if lw.n:
+                    bad(i, op, fmt, rel, f"handle-left-open:{outcome}-call",
+                        f"the file opened for the path target was not closed ({outcome} call): {lw.names[:2]}")
+                if mol_sig(o) != sig0:
+                    bad(i, op, fmt, rel, "object-changed", f"the object dumped is not what it was before the ({outcome}) call")
+                if not supported or ref_err is not None:
+                    if not supported and not isinstance(err, (ValueError, NotImplementedError)):
                         bad(i, op, fmt, rel, "unsupported-not-refused", f"expected ValueError, got {err!r}")
+                    if supported and type(err) is not type(ref_err):
+                        bad(i, op, fmt, rel, "class-codec-raises", f"class-level writer raised {ref_err!r}, entry point gave {err!r}")
                     # whether the refused target was created / truncated is not part of the property: put it back
                     if before or os.path.exists(p):
-                        open(p, "w").write(before)
+                        _write(p, before)
                     continue
                 if err is not None:
                     bad(i, op, fmt, rel, "raises", f"{type(err).__name__}: {err}")
                 else:
-                    want = (before if mode in (None, "a") else "") + getattr(o, "dumps_" + fmt)()
-                    after = open(p).read()
+                    want = (before if mode in (None, "a") else "") + ref
+                    after = _read(p)
                     if after != want:
                         bad(i, op, fmt, rel, "text-differs",
                             f"file holds {len(after)} chars, expected (previous content if appending, {len(before)} chars) + class-level "
@@ -1123,6 +1418,30 @@ def gen_real_progs(ctx, rw):
                     ("dump", oi, "stream", 0, "xyz" if fmt == "mol2" else "mol2", True, None, False),
                     ("dump", oi, "path", 2, "cdxml", False, "w", aspath),
                     ("load", "load_all", slot, True, "molecule", None, aspath, None, False)]))
+    # what the caller owns: refused dumps (unknown / openbabel-only / cdxml / no format) and a failing class-level writer
+    # BETWEEN accepted dumps into the same caller stream (StringIO, file opened by the caller) and into paths
+    for fmt in ("xyz", "mol2"):
+        other = "xyz" if fmt == "mol2" else "mol2"
+        for oi in (0, 1, 2):
+            for ti in (0, 1):
+                aspath = rng.random() < 0.5
+                slot = rng.choice(slot_of[fmt])
+                refusals = [("dump", oi, "stream", ti, f, True, None, False) for f in ("zzz", "sdf", "cdxml")] \
+                    + [("dump", oi, "stream", ti, fmt, False, None, False)]
+                rng.shuffle(refusals)
+                progs.append(("owned", [
+                    ("dump", oi, "stream", ti, fmt, True, None, False), refusals[0],
+                    ("dump", oi + 1, "stream", ti, other, True, None, False), refusals[1], refusals[2],
+                    ("dump", "faulty", "stream", ti, fmt, True, None, False),
+                    ("mutate", oi), ("dump", oi, "stream", ti, fmt, True, None, False), refusals[3],
+                    ("dump", oi, "stream", 1 - ti, other, True, None, False),
+                    ("dump", oi, "path", slot, fmt, True, "w", aspath),
+                    ("dump", oi, "path", 3, rng.choice(["zzz", "sdf", "cdxml"]), True, rng.choice([None, "a", "w"]), aspath),
+                    ("dump", "faulty", "path", slot, fmt, rng.random() < 0.5, "a", aspath),
+                    ("dump", oi + 1, "path", slot, fmt, False, None, not aspath),
+                    ("load", "load_all", slot, True, "molecule", None, aspath, None, False),
+                    ("dumps", "faulty", fmt), ("dumps", oi, fmt),
+                    ("dump", oi + 2, "stream", ti, fmt, True, None, False)]))
     n_rand = 1200 if ctx.thorough else 120
     for _ in range(n_rand):
         p, have = [], set()
@@ -1149,7 +1468,8 @@ def gen_real_progs(ctx, rw):
             elif r < 0.88:
                 p.append(("dumps", rng.randint(0, 2), rng.choice(["xyz", "mol2"])))
             elif r < 0.93:
-                p.append(("dump", rng.randint(0, 2), "stream", rng.randint(0, 1), rng.choice(["xyz", "mol2"]), True, None, False))
+                p.append(("dump", rng.choice([0, 1, 2, 0, 1, 2, "faulty"]), "stream", rng.randint(0, 1),
+                          rng.choice(["xyz", "mol2", "xyz", "mol2", "zzz", "sdf", "cdxml"]), rng.random() < 0.85, None, False))
             else:
                 slot = rng.choice([0, 1, 3, 4, 5])
                 fmt = SLOTS[slot][1] or rng.choice(["xyz", "mol2"])
@@ -1178,6 +1498,10 @@ def run_real_seqs(ctx, rep):
             rep.count(f"realseq:pair:{prev}>{cur}")
             if op[0] == "put":
                 rep.count("realseq:rewrite:" + op[4])
+            if op[0] == "dump":
+                sup = op[4] in ("xyz", "mol2") and (op[5] or op[2] == "path")
+                rep.count(f"realseq:caller-owned:{'stream-' + CallerStream.KINDS[op[3] % 2] if op[2] == 'stream' else 'path'}:"
+                          + ("refused" if not sup else "writer-failed" if op[1] == "faulty" else "accepted"))
             prev = cur
         if len(rep.samples) < 8 and fam == "recall-load" and n % 17 == 0:
             rep.samples.append("real history: " + json.dumps(prog)[:400])
@@ -1238,7 +1562,11 @@ def run(ctx, rep):
         bad = [(c, a) for c, a in rows if a.split(" (*")[0] != py_spec(c)]
         for c, a in bad[:50]:
             found = True
-            rep.violate("C09:cell:" + ":".join(str(x) for x in (c[0], c[1], c[3], c[5])) + ":" + a.split()[0].strip("()"),
+            kind = a.split()[0].strip("()")
+            if kind == "AOdd":
+                code = int(re.sub(r"\D", "", a.split(" (*")[0]) or 0)
+                kind += ":" + ODD_CODES.get(code, str(code))
+            rep.violate("C09:cell:" + ":".join(str(x) for x in (c[0], c[1], c[3], c[5])) + ":" + kind,
                         f"cell {cell_term(c)}: observed {a}, specified {py_spec(c)}", {"kind": "cell", "cell": list(c)})
         vlib.broken_obligation(rep, "C09_matrix", f"{where}\n{out[-1500:]}", found)
 
